@@ -75,6 +75,8 @@ func genCSV(t *tape.Tape, o GenOpts) *World {
 	do.OwnDataOnly = true // the old csv reader keeps no context outside the record
 	decls, js, ext := GenDecls(t, m, do)
 	addPoisonable(decls, m.IntField)
+	addJSPoisonable(t, w, decls, o, fn)
+	addAncestorJS(w, decls, o)
 	if x := flatTarget(sh); x != "" {
 		decls["FINAL_OUTPUT"].(D)["xpath"] = x
 	}
@@ -130,7 +132,7 @@ func genCSV(t *tape.Tape, o GenOpts) *World {
 		w.RecTexts = append(w.RecTexts, w.Render(r))
 	}
 	w.Schema = BuildSchema("csv", enc, fd, decls)
-	w.UsesJS, w.Ext = js, ext
+	w.UsesJS, w.Ext = js || w.UsesJS, ext
 	w.Name = fmt.Sprintf("gen:csv(fields=%d,recs=%d,delim=%q,hdr=%d)", sh.NFields, len(w.LRecs), delim, hdr)
 	finish(w, enc, bom)
 	return w
@@ -234,6 +236,8 @@ func genCSV2(t *tape.Tape, o GenOpts) *World {
 	}
 	decls, js, ext := GenDecls(t, m, declOptsOf(o))
 	addPoisonable(decls, m.IntField)
+	addJSPoisonable(t, w, decls, o, fn)
+	addAncestorJS(w, decls, o)
 	if x := flatTarget(sh); x != "" {
 		decls["FINAL_OUTPUT"].(D)["xpath"] = x
 	}
@@ -253,7 +257,7 @@ func genCSV2(t *tape.Tape, o GenOpts) *World {
 		w.Suffix = strings.TrimPrefix(w.Suffix, eol)
 	}
 	w.Schema = BuildSchema("csv2", enc, fd, decls)
-	w.UsesJS, w.Ext = js, ext
+	w.UsesJS, w.Ext = js || w.UsesJS, ext
 	w.Name = fmt.Sprintf("gen:csv2(layout=%d,fields=%d,items=%d,recs=%d)", layout, sh.NFields, sh.NItemFields, len(w.LRecs))
 	if layout == 1 {
 		w.SetTag("envelope", "header_footer")
@@ -360,6 +364,8 @@ func genFixed(t *tape.Tape, o GenOpts) *World {
 	}
 	decls, js, ext := GenDecls(t, m, declOptsOf(o))
 	addPoisonable(decls, m.IntField)
+	addJSPoisonable(t, w, decls, o, fn)
+	addAncestorJS(w, decls, o)
 	if x := paddedTarget(sh); x != "" {
 		decls["FINAL_OUTPUT"].(D)["xpath"] = x
 	}
@@ -376,7 +382,7 @@ func genFixed(t *tape.Tape, o GenOpts) *World {
 		w.Suffix = strings.TrimPrefix(w.Suffix, eol)
 	}
 	w.Schema = BuildSchema("fixed-length", enc, fd, decls)
-	w.UsesJS, w.Ext = js, ext
+	w.UsesJS, w.Ext = js || w.UsesJS, ext
 	w.Name = fmt.Sprintf("gen:fixed-length(layout=%d,fields=%d,width=%d,recs=%d)", layout, sh.NFields, width, len(w.LRecs))
 	finish(w, enc, bom)
 	return w
@@ -467,6 +473,8 @@ func genFixed2(t *tape.Tape, o GenOpts) *World {
 	}
 	decls, js, ext := GenDecls(t, m, declOptsOf(o))
 	addPoisonable(decls, m.IntField)
+	addJSPoisonable(t, w, decls, o, fn)
+	addAncestorJS(w, decls, o)
 	if x := paddedTarget(sh); x != "" {
 		decls["FINAL_OUTPUT"].(D)["xpath"] = x
 	}
@@ -486,7 +494,7 @@ func genFixed2(t *tape.Tape, o GenOpts) *World {
 		w.Suffix = strings.TrimPrefix(w.Suffix, eol)
 	}
 	w.Schema = BuildSchema("fixedlength2", enc, fd, decls)
-	w.UsesJS, w.Ext = js, ext
+	w.UsesJS, w.Ext = js || w.UsesJS, ext
 	w.Name = fmt.Sprintf("gen:fixedlength2(layout=%d,fields=%d,items=%d,width=%d,recs=%d)", layout, sh.NFields, sh.NItemFields, width, len(w.LRecs))
 	finish(w, enc, bom)
 	return w
